@@ -79,7 +79,8 @@ CHECKS.update({
 CHECKS.update({
  "C06": ("proof", "OVMB: byte-level writer model equal to the real writer byte for byte; reader model in lock step on mutated files; the round trip decode(encode m) = m is PROVED for every mesh (implementation reader and the reader written from the format description), "
          "as is the reading of every member of an explicit family of re-encodings (split spans, wider integers, variable valence, handle offsets, skippable chunks). "
-         "OVM ASCII: token-level writer/reader models; round trip proved for meshes without properties (partial), integer printing/parsing round trip, refuted corners recorded (pending deletions D7, text-format limits). "
+         "OVM ASCII: token-level writer/reader models; round trip (twice) proved for every mesh inside the format's limits with persistent properties of every serializable type, in every reader configuration, "
+         "floating point through explicit printer/parser premises; refuted corners recorded (pending deletions D7, text-format limits). "
          "Tie: write->read->compare and byte-exact writer comparison on generated meshes with all property types.",
          "Coq proof over byte/token-level models of writer and reader + lock-step correspondence on generated and mutated files + round-trip oracle", "6 C06"),
  "C07": ("proof", "Theorems: the OVMB reader model (decoder primitives need()-guarded as in the repaired code, explicit wrap-around arithmetic, fuelled chunk loop) never reaches the out-of-bounds outcome and success implies every stored handle in range "
